@@ -83,7 +83,7 @@ theorem eth_loop3 (width height rx ry w h x y : Int) (o : List Pt) (d : Pt) :
               then [(pymod (x + d.1 + rx) w, pymod (y + d.2 + ry) h)] else []) := by
   unfold PyFun.spinn5_eth_coords_loop3 pymod
   dsimp only
-  split_ifs <;> simp
+  split_ifs <;> first | (simp; done) | (exfalso; simp_all; done) | (exfalso; omega)
 
 theorem eth_loop2 (width height rx ry w h x : Int) (o : List Pt) (y : Int) :
     PyFun.spinn5_eth_coords_loop2 width height rx ry w h x o y
@@ -161,11 +161,7 @@ theorem std_loop1_step (n : Int) (k : Nat) (hk : Int.fdiv n 3 = (k : Int)) (h0 :
   dsimp only
   rw [hk, fmod_natCast]
   simp only [Bool.false_eq_true, if_false]
-  by_cases hd : k % m = 0
-  · have : ((k % m : Nat) : Int) = 0 := by omega
-    rw [if_pos this, if_pos hd]
-  · have : ¬ ((k % m : Nat) : Int) = 0 := by omega
-    rw [if_neg this, if_neg hd]
+  split_ifs <;> first | rfl | (exfalso; omega)
 
 /-- the search loop finds what the model's `searchDown` finds -/
 theorem std_loop1_search (n : Int) (k : Nat) (hk : Int.fdiv n 3 = (k : Int)) :
